@@ -169,6 +169,73 @@ def run(ctx):
     res.count("lexical_overflow_arms", nmap, floor=2)
     res.count("reachable_local_functions", len(local), floor=300)
     res.analysed = {"entries": [e.path for e in entries]}
+    # R5 sign interpretation: a numeric value is negated only under a test of the sign token being Operator::Minus
+    OPER = "quil_rs::parser::lexer::Operator"
+    minus_i = [v["i"] for v in db.adts[OPER]["variants"] if v["n"] == "Minus"] if OPER in db.adts else []
+    nneg = 0
+    for f in db.fns:
+        if not f.path.startswith("quil_rs::parser"):
+            continue
+        sites = [(i_, "neg") for i_, j_, s_ in f.stmts() if s_["k"] == "assign" and s_["rv"]["k"] == "un" and s_["rv"]["op"] == "Neg"]
+        sites += [(bb, c.get("name")) for bb, t, c in f.calls() if c and c.get("name") in ("neg", "checked_neg", "wrapping_neg", "overflowing_neg")]
+        for bb, what in sites:
+            nneg += 1
+            key = "K7|negation-under-minus|%s" % f.path
+            ok = False
+            seen_conds = []
+            for sb, tgt in f.control_deps(bb):
+                tt = f.blocks[sb]["t"]
+                if tt["k"] != "switch":
+                    continue
+                op = tt["d"]
+                pl = op.get("m") or op.get("c")
+                if not pl:
+                    continue
+                # the switch operand is `discriminant(place)`: find the place's type
+                for d_ in f.defs().get(pl["l"], []):
+                    if d_[0] == "s" and d_[3]["rv"]["k"] == "discr":
+                        p2 = d_[3]["rv"]["p"]
+                        prs = [x for x in p2["pr"] if isinstance(x, dict) and "t" in x]
+                        ti = prs[-1]["t"] if prs else f.locals[p2["l"]]["t"]
+                        ty = db.types[ti]
+                        while ty["k"] == "ref":
+                            ty = db.types[ty["t"]]
+                        taken = [int(v) for v, x in tt["ts"] if x == tgt]
+                        seen_conds.append((ty.get("path", ty["s"]), taken))
+                        if ty.get("path") == OPER and minus_i and taken == minus_i:
+                            ok = True
+            res.site(key, True, {"site": what, "controlling_enum_tests": [(a.rsplit("::", 1)[-1], b) for a, b in seen_conds][:4], "verdict": "ok" if ok else "VIOLATION"})
+            if not ok:
+                res.find(key, f.loc(), "%s negates a numeric literal without testing that the sign token is Operator::Minus (controlling tests: %s)" % (f.path.replace("quil_rs::", ""), [(a.rsplit("::", 1)[-1], b) for a, b in seen_conds][:4]), "`CALL foo +2` is accepted and the literal silently becomes -2")
+    res.count("negation_sites", nneg, floor=1)
+    # R6 the identity of float literals is exact: the Eq/Hash helpers used for Expression numbers (and hence for interning
+    #    of sub-expressions) compare exactly - no ordering comparison, no arithmetic, no tolerance constant
+    fpe = [f for f in db.fns if f.path.startswith("quil_rs::floating_point_eq::")]
+    res.count("floating_point_eq_functions", len(fpe), floor=2)
+    for f in fpe:
+        key = "K6|float-identity-exact|%s" % f.path
+        bad = []
+        for i_, j_, s_ in f.stmts():
+            if s_["k"] == "assign" and s_["rv"]["k"] == "bin":
+                opn = s_["rv"]["op"]
+                tys = []
+                for side in ("a", "b"):
+                    o = s_["rv"][side]
+                    if o.get("k") is not None:
+                        tys.append(db.types[o["k"]["t"]]["s"])
+                        if db.types[o["k"]["t"]]["s"] in ("f64", "f32") and opn in ("Eq", "Ne") and str(o["k"].get("float", o["k"].get("s"))) not in ("0.0", "-0.0", "0", "0f64", "0.0f64"):
+                            bad.append("comparison with the constant %s" % o["k"].get("s"))
+                    else:
+                        pl = o.get("m") or o.get("c")
+                        tys.append(db.ty_s(f.locals[pl["l"]]["t"]) if not pl["pr"] else "?")
+                if any(t_ in ("f64", "f32") for t_ in tys) and opn not in ("Eq", "Ne", "BitAnd", "BitOr"):
+                    bad.append("float %s" % opn)
+        for bb, t, c in f.calls():
+            if c and re.search(r"f64>?::(abs|round|floor|ceil|trunc|signum|max|min|clamp|mul_add|powi|powf|sqrt)$|::(abs_sub|total_cmp|partial_cmp)$", callee_path(c)):
+                bad.append(callee_path(c).rsplit("::", 1)[-1] + "()")
+        res.site(key, True, {"inexact_operations": bad, "verdict": "ok" if not bad else "VIOLATION"})
+        if bad:
+            res.find(key, f.loc(), "%s is not an exact identity on floats (%s): Expression numbers equal under it are merged by interning, so a literal can be replaced by a different one" % (f.path.replace("quil_rs::", ""), sorted(set(bad))), "`RX(2*1e-17) 0` then `RX(2*1e-30) 1`: the second gate's parameter comes back as 2*1e-17")
     res.explanation = (
         "Static rules over the parse-reachable set (%d functions): %d numeric casts classified (none may be value-changing), overflow asserts "
         "must be discharged, %d Token::Float construction(s) must be dominated by is_finite, %d lexical overflow arms must build nom::Err::Failure. "
